@@ -187,7 +187,7 @@ Lemma hav_error_rejects :
   hholds (HOr (HCmp HLt 1 1) (HCmp HGt 0 10)) [Some RNull; Some (RNum 0)] = true.
 Proof. vm_compute. split; reflexivity. Qed.
 
-(* FINDING F59: an aggregate call with an arithmetic argument written inside an analytic function of a windowed
+(* FINDING F60: an aggregate call with an arithmetic argument written inside an analytic function of a windowed
    query (changed_col(true, sum(x + 1)) ... GROUP BY CountingWindow(3)) runs over the bare column:
    rows 0, -2, 4 give 2, the definition of sum(x + 1) gives 5 *)
 Lemma inline_agg_arg_dropped_refuted :
